@@ -16,7 +16,8 @@ def driver(scenarios, tag):
 
 
 def sig_of(s):
-    return {"mode": s["mode"], "periodic": s["periodic"]}
+    return {"mode": s["mode"], "periodic": s["periodic"],
+            "reuse": any(t.get("op") == "resched" for t in s.get("plan", []))}
 
 
 def nontrivial(s, rows):
@@ -40,6 +41,8 @@ def add_quiet(plan):
         out.append(t)
         if t["op"] == "step" and last.get(t["who"]) == i:
             out.append({"op": "quiet", "who": "env"})
+        if t["op"] == "resched":
+            out.append({"op": "probe", "who": "env"})
         if t["op"] == "call" and t["who"] not in last:
             pass
     return out
@@ -84,6 +87,14 @@ def directed_scenarios(base):
         # steps offered to threads that the protocol keeps waiting (lock held by the claiming caller)
         [("call", "c1"), ("step", "c1"), ("ctx", "env"), ("step", "g"), ("step", "g"), ("step", "g"), ("step", "c1")],
         [("call", "c1"), ("step", "c1"), ("timer", "env"), ("step", "g"), ("step", "g"), ("step", "g"), ("step", "c1")],
+        # the name is scheduled again while the earlier job's goroutine has not yet dealt with its cancel /
+        # context / timer: the earlier goroutine must leave the successor's table entry alone
+        # (counterexamples of MC_Scheduler_byname.cfg)
+        [("call", "k1"), ("step", "k1"), ("resched", "env"), ("step", "g"), ("step", "g"), ("step", "g"), ("probe", "env")],
+        [("call", "k1"), ("step", "k1"), ("resched", "env"), ("timer", "env"), ("step", "g"), ("step", "g"), ("step", "g"), ("step", "g"), ("probe", "env")],
+        [("call", "k1"), ("step", "k1"), ("resched", "env"), ("ctx", "env"), ("step", "g"), ("step", "g"), ("step", "g"), ("probe", "env")],
+        [("ctx", "env"), ("call", "c1"), ("resched", "env"), ("step", "g"), ("step", "g"), ("step", "g"), ("probe", "env"), ("step", "c1")],
+        [("call", "c1"), ("step", "c1"), ("step", "c1"), ("resched", "env"), ("step", "g"), ("step", "g"), ("step", "g"), ("step", "g"), ("probe", "env")],
     ]
     out = []
     for i, p in enumerate(plans):
@@ -152,7 +163,9 @@ def run(tier):
         v.add_mc(vf.tlc_exhaustive(PID, "Scheduler", "MC_Scheduler_big.cfg", workers=8, timeout=1500))
         v.add_mc(vf.tlc_exhaustive(PID, "Scheduler", "MC_Scheduler_periodic_big.cfg", workers=8, timeout=1500))
     n_o, n_p, n_f = (80, 20, 400) if tier == "quick" else (700, 150, 8000)
-    one_off = directed_scenarios(1) + gated_scenarios("Scen_Scheduler.cfg", False, n_o, 100, rnd)
+    one_off = directed_scenarios(1) + gated_scenarios("Scen_Scheduler.cfg", False, n_o, 1000, rnd)
+    # the name-reuse schedules need the "both ready" select (goroutine held before its select): repeat them
+    one_off += [dict(s, sc=s["sc"] + 40 * k) for k in (1, 2, 3) for s in directed_scenarios(1)[12:]]
     periodic = directed_periodic(90000) + gated_scenarios("Scen_Scheduler_periodic.cfg", True, n_p, 100000, rnd)
     free = free_scenarios(n_f, 200000, rnd)
     vf.conformance(v, one_off + free, driver, "Trace_Scheduler", "Trace_Scheduler.cfg", sig_of, nontrivial,
